@@ -36,7 +36,8 @@ def plan(tier):
                 '(os._exit) at the k-th event: class sql = before/after every cursor execute, before the DBAPI commit, '
                 'after the session commit; class line = every executed line of engine.py inside process_request (every '
                 'line in thorough, every 3rd in quick); class kill = SIGKILL at a random instant of a continuous '
-                'workload; the parent reopens the file (with its journal) in a fresh engine and compares the full '
+                'workload; class sys (thorough only) = SIGKILL on entry of the n-th pwrite64 / write / fsync / fdatasync / unlink / '
+                'ftruncate touching the database or its journal, injected by strace into a separate server process; the parent reopens the file (with its journal) in a fresh engine and compares the full '
                 'observation with the twins "k requests applied"; a cell is (operation, position, crash class, outcome)'
                 % len(OPS),
         'min_monitor': {'full_observations': 300, 'crash_points': 1500, 'deaths_confirmed': 1500, 'recoveries_compared': 1500,
@@ -55,6 +56,10 @@ def cases(tier, seed):
             cs.append({'op': op, 'pos': pos, 'cls': 'line'})
     n = 6 if tier == 'quick' else 48
     cs += [{'kill': i} for i in range(n)]
+    if tier != 'quick':
+        for op in OPS:
+            for pos in (0, 1):
+                cs.append({'op': op, 'pos': pos, 'cls': 'sys'})
     return cs
 
 
@@ -308,6 +313,61 @@ def fork_run(path, seq, cls, k):
     return data.decode(), code
 
 
+def judge(ctx, case, work, acks, twins, main_index, base_max, k, total):
+    nack = len(acks)
+    had_journal = os.path.exists(work + '-journal')
+    if had_journal:
+        ctx.count('hot_journals_seen')
+    detail = {'case': case, 'k': k, 'of': total, 'acks': acks, 'journal': had_journal}
+    opname = case['op'] if nack == main_index else 'companion'
+    kbase = '%s|%s|' % (opname, case['cls'])
+    # cheap path: identical tables to one of the two admissible twins => identical observation
+    # (the engine is a function of the store); the full protocol-level observation is taken for
+    # every 5th point and whenever the tables match neither twin
+    try:
+        full = quick_dump(work, base_max)
+    except Exception as e:
+        full = None
+    if full is not None and k % 5 and not had_journal:
+        if full == twins[nack]['full']:
+            ctx.count('recoveries_compared')
+            ctx.count('outcome_absent')
+            ctx.count('acks_verified', nack)
+            ctx.cell(case['op'], case['pos'], case['cls'], 'absent')
+            return
+        if nack + 1 < len(twins) and full == twins[nack + 1]['full']:
+            ctx.count('recoveries_compared')
+            ctx.count('outcome_applied')
+            ctx.count('acks_verified', nack)
+            ctx.cell(case['op'], case['pos'], case['cls'], 'applied')
+            return
+    ctx.count('full_observations')
+    rec, problems = observe(work, base_max)
+    if rec is None or problems:
+        ctx.violation(kbase + 'unreadable', 'after death at %s event %d/%d the store cannot be fully read: %s'
+                      % (case['cls'], k, total, (problems or ['?'])[:3]), detail)
+        ctx.cell(case['op'], case['pos'], case['cls'], 'unreadable')
+        return
+    ctx.count('recoveries_compared')
+    if obs_equal(rec, twins[nack]):
+        outcome = 'absent'
+        ctx.count('outcome_absent')
+    elif nack + 1 < len(twins) and obs_equal(rec, twins[nack + 1]):
+        outcome = 'applied'
+        ctx.count('outcome_applied')
+    else:
+        lost = any(obs_equal(rec, twins[j]) for j in range(nack))
+        outcome = 'lost-ack' if lost else 'partial'
+        ctx.violation(kbase + outcome,
+                      'death at %s event %d/%d with %d request(s) acknowledged: the recovered store is neither '
+                      '"%d applied" nor "%d applied" (differs from the former in %s, from the latter in %s)'
+                      % (case['cls'], k, total, nack, nack, nack + 1, obs_diff(rec, twins[nack]),
+                         obs_diff(rec, twins[nack + 1]) if nack + 1 < len(twins) else '-'), detail)
+    if nack:
+        ctx.count('acks_verified', nack)
+    ctx.cell(case['op'], case['pos'], case['cls'], outcome)
+
+
 def run_case(ctx, case):
     rng = ctx.rng()
     rig.install_clock(rig.VClock(step=0))
@@ -343,6 +403,8 @@ def run_case(ctx, case):
         if statuses[main_index] != 'S':
             ctx.unsure('operation %s does not succeed on the prepared store (%s)' % (case['op'], statuses))
             return
+        if case['cls'] == 'sys':
+            return run_syscalls(ctx, case, d, base, env, twins, main_index, base_max)
         # dry run: count events
         dry = d + '/dry.sqlite'
         shutil.copyfile(base, dry)
@@ -378,58 +440,7 @@ def run_case(ctx, case):
                 continue
             ctx.count('deaths_confirmed')
             acks = [l.split() for l in out.splitlines() if l.startswith('ACK')]
-            nack = len(acks)
-            had_journal = os.path.exists(work + '-journal')
-            if had_journal:
-                ctx.count('hot_journals_seen')
-            detail = {'case': case, 'k': k, 'of': total, 'acks': acks, 'journal': had_journal}
-            opname = case['op'] if nack == main_index else 'companion'
-            kbase = '%s|%s|' % (opname, case['cls'])
-            # cheap path: identical tables to one of the two admissible twins => identical observation
-            # (the engine is a function of the store); the full protocol-level observation is taken for
-            # every 5th point and whenever the tables match neither twin
-            try:
-                full = quick_dump(work, base_max)
-            except Exception as e:
-                full = None
-            if full is not None and k % 5 and not had_journal:
-                if full == twins[nack]['full']:
-                    ctx.count('recoveries_compared')
-                    ctx.count('outcome_absent')
-                    ctx.count('acks_verified', nack)
-                    ctx.cell(case['op'], case['pos'], case['cls'], 'absent')
-                    continue
-                if nack + 1 < len(twins) and full == twins[nack + 1]['full']:
-                    ctx.count('recoveries_compared')
-                    ctx.count('outcome_applied')
-                    ctx.count('acks_verified', nack)
-                    ctx.cell(case['op'], case['pos'], case['cls'], 'applied')
-                    continue
-            ctx.count('full_observations')
-            rec, problems = observe(work, base_max)
-            if rec is None or problems:
-                ctx.violation(kbase + 'unreadable', 'after death at %s event %d/%d the store cannot be fully read: %s'
-                              % (case['cls'], k, total, (problems or ['?'])[:3]), detail)
-                ctx.cell(case['op'], case['pos'], case['cls'], 'unreadable')
-                continue
-            ctx.count('recoveries_compared')
-            if obs_equal(rec, twins[nack]):
-                outcome = 'absent'
-                ctx.count('outcome_absent')
-            elif nack + 1 < len(twins) and obs_equal(rec, twins[nack + 1]):
-                outcome = 'applied'
-                ctx.count('outcome_applied')
-            else:
-                lost = any(obs_equal(rec, twins[j]) for j in range(nack))
-                outcome = 'lost-ack' if lost else 'partial'
-                ctx.violation(kbase + outcome,
-                              'death at %s event %d/%d with %d request(s) acknowledged: the recovered store is neither '
-                              '"%d applied" nor "%d applied" (differs from the former in %s, from the latter in %s)'
-                              % (case['cls'], k, total, nack, nack, nack + 1, obs_diff(rec, twins[nack]),
-                                 obs_diff(rec, twins[nack + 1]) if nack + 1 < len(twins) else '-'), detail)
-            if nack:
-                ctx.count('acks_verified', nack)
-            ctx.cell(case['op'], case['pos'], case['cls'], outcome)
+            judge(ctx, case, work, acks, twins, main_index, base_max, k, total)
         ctx.sample({'operation': case['op'], 'position': case['pos'], 'class': case['cls'], 'events': total,
                     'crash_points_tried': len(ks)})
 
@@ -497,3 +508,74 @@ def run_kill(ctx, case, rng):
             ctx.count('outcome_absent')
             ctx.cell('workload', 'kill', 'consistent', 'acks>0' if acks else 'acks=0')
         ctx.sample({'kill_workload': case['kill'], 'last_acks': len(acks)})
+
+
+SYSCALLS = ['pwrite64', 'write', 'fsync', 'fdatasync', 'unlink', 'ftruncate']
+
+
+def strace_run(db, ackfile, case, env, inject=None, tracefile='/dev/null'):
+    import json
+    import subprocess
+    from kv import runner
+    cmd = ['strace', '-f', '-o', tracefile, '-P', db, '-P', db + '-journal', '-e', 'trace=' + ','.join(SYSCALLS)]
+    if inject:
+        cmd += ['-e', 'inject=%s:signal=SIGKILL:when=%d' % inject]
+    cmd += [sys.executable, '-m', 'kv.c09_child', db, ackfile, json.dumps(case), json.dumps(env)]
+    e = dict(os.environ)
+    try:
+        p = subprocess.run(cmd, env=e, cwd=runner.ROOT, capture_output=True, timeout=120)
+        return p.returncode
+    except subprocess.TimeoutExpired:
+        return 'timeout'
+
+
+def run_syscalls(ctx, case, d, base, env, twins, main_index, base_max):
+    """Class sys: SIGKILL on entry of the n-th pwrite64 / write / fsync / fdatasync / unlink / ftruncate that touches
+    the database or its rollback journal (strace fault injection), i.e. death between SQLite's own writes."""
+    import shutil as sh
+    if sh.which('strace') is None:
+        ctx.unsure('strace is not available')
+        return
+    dry = d + '/dry.sqlite'
+    sh.copyfile(base, dry)
+    trace = d + '/trace.txt'
+    rc = strace_run(dry, d + '/dry.ack', case, env, None, trace)
+    counts = {}
+    try:
+        for line in open(trace):
+            parts = line.split(None, 1)
+            if len(parts) == 2:
+                name = parts[1].split('(', 1)[0]
+                if name in SYSCALLS:
+                    counts[name] = counts.get(name, 0) + 1
+    except OSError:
+        pass
+    if rc != 0 or not counts or 'DONE' not in open(d + '/dry.ack').read():
+        ctx.unsure('syscall dry run failed for %s (rc=%s, counts=%s)' % (case, rc, counts))
+        return
+    total = sum(counts.values())
+    ctx.count('events_sys_total', total)
+    k = 0
+    for name in SYSCALLS:
+        for n in range(1, counts.get(name, 0) + 1):
+            k += 1
+            work = d + '/work.sqlite'
+            for suffix in ('', '-journal', '-wal', '-shm'):
+                if os.path.exists(work + suffix):
+                    os.unlink(work + suffix)
+            sh.copyfile(base, work)
+            ack = d + '/work.ack'
+            if os.path.exists(ack):
+                os.unlink(ack)
+            rc = strace_run(work, ack, case, env, (name, n))
+            ctx.ev()
+            ctx.count('crash_points')
+            out = open(ack).read() if os.path.exists(ack) else ''
+            if 'DONE' in out:
+                ctx.count('crash_point_not_reached')
+                continue
+            ctx.count('deaths_confirmed')
+            ctx.count('syscall_deaths|%s' % name)
+            acks = [l.split() for l in out.splitlines() if l.startswith('ACK')]
+            judge(ctx, dict(case, syscall=name), work, acks, twins, main_index, base_max, k, total)
+    ctx.sample({'operation': case['op'], 'position': case['pos'], 'class': 'sys', 'syscalls_on_db_and_journal': counts})
